@@ -206,6 +206,10 @@ def run(out: Outcome, drv):
         items = [it for it in fx.corpus_items("C01") if it[0]["fn"] == fn]
         for c in cases:
             cars = CARRIERS.get(fn, CARRIERS["default"])
+            vals_ = [v for k in fx.SERIES_KEYS[fn] if k != "t" for v in c[k]]
+            if fn not in ("valid", "pressure") and not c.get("as_time") and \
+                    all(v is None or (gen.F(v).denominator == 1 and abs(v) < 2 ** 31) for v in vals_):
+                cars = cars + ["ma_i4", "ma_i4"]        # integer masked array with an allocated mask (values permitting)
             items.append((c, rng.choice(cars), rng.choice(TCARRIERS), rng.choice(["list", "tuple"])))
         obs = [observe(c, (ca, tc, sk), rng) for c, ca, tc, sk in items]
         ans = drv.run([{"kind": "test", "call": sut.wire_case(c), "obs": sut.wire_obs(o), "want_spec": True}
